@@ -137,6 +137,8 @@ func fileTreeRecursive(
 
 	// depth > 1
 
+	// a level seeded with the previous root is only a new level if more data follows
+	seeded := len(children) > 0
 	if children == nil {
 		children = make(fileShards, 0)
 	}
@@ -157,8 +159,8 @@ func fileTreeRecursive(
 	if len(children) == 0 {
 		// empty case
 		return fileShardMeta{}, nil
-	} else if len(children) == 1 {
-		// degenerate case
+	} else if len(children) == 1 && seeded {
+		// degenerate case: nothing was added next to the previous root
 		return children[0], nil
 	}
 
